@@ -1,8 +1,50 @@
 (* C01 — Compiling a page yields exactly the notes written in it.
-   PARTIAL: the end-to-end statement (compile (render p) = expected_notes p for
-   every abstract page p) is decided by the correspondence + spec runs of the
-   harness; proved here are the mechanisms that make it true, over ALL trees. *)
-From Zorg Require Import Base.PyStr Base.Res Base.Dates Model.FileListener Model.Witness Proofs.FileListenerFacts.
+   Proved: for EVERY abstract well-formed page (coq/Model/PageSyntax.v) the listener, run on the tree the
+   parser builds for the page's canonical text, yields exactly the notes the page reading demands, in document
+   order (C01_page_yields_exactly_its_notes).  That the parser builds tree_of_page for that text is NOT proved
+   (the ANTLR parser is not modelled): the harness compares tree_of_page with the real parse tree, and spec_page
+   with the real compilation, on every generated page of every run.  The older per-handler theorems (any tree,
+   any state) are kept below with their _partial names. *)
+From Zorg Require Import Base.PyStr Base.Res Base.Dates Gen.Params Model.FileListener Model.Witness Proofs.FileListenerFacts
+  Model.PageSyntax Proofs.PageFacts.
+
+(* Every abstract page: any nesting of sections H1 > H2 > H3 > H4 (also H2 sections before the first H1), any number
+   of blocks and items, every item kind, with or without priority, every identity form (none / ZID / modify date +
+   ZID / long creation date), any number of words of every modelled form (plain and look-alike identifiers, tags,
+   digit-only tags, page links, properties, dates, ZIDs).  The result: not flagged; the notes are exactly
+   spec_page, in document order, each with kind, priority, ZID, dates, body, line and the metadata in scope. *)
+Theorem C01_page_yields_exactly_its_notes : forall today pg,
+  valid_page pg ->
+  exists secs, listen today false (tree_of_page pg) = Ok (mkPage false (spec_page today pg) secs).
+Proof. exact page_correct. Qed.
+
+(* the hypothesis is decidable; the harness evaluates valid_pageb on every generated page *)
+Theorem C01_hypotheses_decidable : forall pg, valid_pageb pg = true -> valid_page pg.
+Proof. exact valid_pageb_sound. Qed.
+
+(* what spec_page says about one item: kind and priority only from the prefix, identity only from the identity
+   position, body = the words as written, line = the line of the item *)
+Theorem C01_item_reading : forall today ot op od key line it,
+  let n := spec_note today ot op od key line it in
+  n_todo n = match i_kind it with
+             | None => None
+             | Some k => Some (match i_prio it with Some p => upper p | None => default_priority end, [kind_char k])
+             end /\
+  n_zid n = ident_zid (i_ident it) /\ n_body n = strip (words_text (item_words it)) /\ n_line n = line.
+Proof. intros. destruct (spec_note_reading today ot op od key line it) as (A & B & C & D & _). repeat split; assumption. Qed.
+
+(* non-vacuity: a page with a title tag, two top-level items, an H2 before the first H1, and an H1 > H2 nesting *)
+Definition ex_page : apage :=
+  mkPg [WId (S "Title"); WTag KArea (S "pa")]
+       [[mkItem None None (IPlain (S "foo")) [WTag KProject (S "p1"); WId (S "240101")];
+         mkItem (Some TOpen) (Some (S "P2")) (IZid (S "240105#0A")) [WId (S "bar"); WProp (S "k") (S "v")]]]
+       [GSec [WId (S "Early")] [[mkItem (Some TDone) None (IModZid (S "240301") (S "231201#AB")) []]] []]
+       [GSec [WId (S "One"); WDate (S "2024-03-05")] []
+             [GSec [WId (S "Two"); WTag KContext (S "home")] [[mkItem None None (ILong (S "2024-02-02")) [WId (S "x1")]]] []]].
+Example C01_page_example :
+  valid_page ex_page /\ length (spec_page (mkDate 2024 6 1) ex_page) = 4%nat /\
+  map n_line (spec_page (mkDate 2024 6 1) ex_page) = [3; 4; 8; 14]%nat.
+Proof. split; [apply valid_pageb_sound; vm_compute; reflexivity|split; vm_compute; reflexivity]. Qed.
 
 (* Only todo_prefix / priority nodes write kind and priority: no other word
    form, however it looks, changes them. *)
@@ -16,13 +58,13 @@ Proof. exact enter_keeps_kind_priority. Qed.
    ZID, nor modify date, nor create date. *)
 Theorem C01_lookalike_ids_inert_partial : forall txt st st',
   enter_id txt st = Ok st' ->
-  (2 <= s_ids st \/ (s_ids st = 1 /\ s_modify st = None)) -> ident st' = ident st.
+  (2 <= s_ids st \/ (s_ids st = 1 /\ s_modify st = None)) -> FileListenerFacts.ident st' = FileListenerFacts.ident st.
 Proof. exact id_after_identity_is_inert. Qed.
 
 Theorem C01_lookalike_dates_inert_partial : forall kids st st',
   enter_date kids st = Ok st' ->
   s_in_hdr st = [false; false; false; false] -> s_first_comment st = false ->
-  (s_ids st <> 1 \/ getn 5 (s_dates st) None <> None) -> ident st' = ident st.
+  (s_ids st <> 1 \/ getn 5 (s_dates st) None <> None) -> FileListenerFacts.ident st' = FileListenerFacts.ident st.
 Proof. exact date_word_in_body_is_inert. Qed.
 
 (* Nothing but the exit of an item adds a note: with the output accumulator
@@ -38,6 +80,9 @@ Example C01_example :
     n_modify n = mkDate 2024 1 1 /\ n_create n = mkDate 2023 12 31.
 Proof. eexists. eexists. split; [vm_compute; reflexivity|]. repeat split. Qed.
 
+Print Assumptions C01_page_yields_exactly_its_notes.
+Print Assumptions C01_hypotheses_decidable.
+Print Assumptions C01_item_reading.
 Print Assumptions C01_kind_priority_only_from_prefix_partial.
 Print Assumptions C01_lookalike_ids_inert_partial.
 Print Assumptions C01_lookalike_dates_inert_partial.
